@@ -344,6 +344,46 @@ def h_amend(B, kind, fwd):
     B.eq("amended: metric == L R", _flat(met), _flat(lr))
 
 
+def h_amend_complex(B, n):
+    """complex data behind a forward model from REAL parameters to complex values with a complex Jacobian (x -> R exp(x), R
+    complex): the chain rule has to use J^H (conjugate transpose), metric == Re(J^H s^2 J), L R == metric, R adjoint to L"""
+    d = B.complexes("d", (n,))
+    s = B.reals("s")
+    B.assume(s > 0)
+    R = B.complexes("R", (n, n))
+    x, t = B.reals("x", (n,)), B.reals("t", (n,))
+    c = B.complexes("c", (n,))
+
+    def with_lh(fun):
+        def g(d, s, R, *a):
+            lh = jft().Gaussian(d, noise_cov_inv=lambda v: s * s * v, noise_std_inv=lambda v: s * v).amend(lambda x: R @ jnp.exp(x))
+            return fun(lh, *a)
+        return g
+    met = jcall(B, with_lh(lambda lh, x, t: lh.metric(x, t)), d, s, R, x, t)
+    lr = jcall(B, with_lh(lambda lh, x, t: lh.left_sqrt_metric(x, lh.right_sqrt_metric(x, t))), d, s, R, x, t)
+    lsm = jcall(B, with_lh(lambda lh, x, c: lh.left_sqrt_metric(x, c)), d, s, R, x, c)
+    rsm = jcall(B, with_lh(lambda lh, x, t: lh.right_sqrt_metric(x, t)), d, s, R, x, t)
+    B.eq("complex model: metric == L R", _flat(met), _flat(lr))
+    e = np.frompyfunc(_exp, 1, 1)(np.asarray(x, dtype=object))
+    Ro = np.asarray(R, dtype=object)
+    Jt = [sum((Ro[i, j] * e[j] * t[j] for j in range(n)), 0) for i in range(n)]                    # J t (complex)
+    want = [s * s * e[j] * sum((_re(_conj(Ro[i, j]) * Jt[i]) for i in range(n)), 0) for j in range(n)]      # Re(J^H s^2 J t)
+    B.eq("complex model: metric == Re(J^H N^-1 J) t", _flat(met), want)
+    lhs = sum((_re(_conj(u) * v) for u, v in zip(_flat(rsm), list(np.asarray(c, dtype=object).reshape(-1)))), 0)
+    rhs = sum((u * v for u, v in zip(list(t), _flat(lsm))), 0)
+    B.eq("complex model: Re<R t, c> == <t, L c>", [lhs], [rhs])
+
+
+def _conj(v):
+    return v.conjugate() if hasattr(v, "conjugate") else np.conj(v)
+
+
+def _re(v):
+    if isinstance(v, sc.SC):
+        return v.r
+    return v.real if hasattr(v, "real") and not isinstance(v, sc.SR) else v
+
+
 def h_sum(B):
     """LikelihoodSum of a Gaussian and a Poissonian on different keys of a dict model"""
     d = B.reals("d", (N,))
@@ -433,10 +473,12 @@ def scenarios(tier, seed):
     out.append(("sum", {}))
     out.append(("freeze", {}))
     out.append(("vcg_complex", {"n": 1}))
+    out.append(("amend_complex", {"n": 1}))
+    out.append(("amend_complex", {"n": 2}))
     return out
 
 
-HARNESSES = {"vcg_complex": h_vcg_complex, "lik": h_lik, "amend": h_amend, "sum": h_sum, "freeze": h_freeze, "validate": h_validate}
+HARNESSES = {"amend_complex": h_amend_complex, "vcg_complex": h_vcg_complex, "lik": h_lik, "amend": h_amend, "sum": h_sum, "freeze": h_freeze, "validate": h_validate}
 OPTS = {"quick": {"max_paths": 32, "budget_s": 300}, "thorough": {"max_paths": 32, "budget_s": 1200}}
 
 META = {
@@ -447,7 +489,7 @@ META = {
                    "hyper-parameters -- interpreted over symbolic reals; z3 refutes for ALL primals, tangents, cotangents, data, noise "
                    "levels and degrees of freedom: metric != L(R(.)), <R t,c> != <t,L c>, metric != closed-form Fisher information, "
                    "energy != documented -log pdf, L != vjp(transformation) and J^T J != metric where the transformation is exact; "
-                   "the same through amend (affine and exp forward models: chain rule), LikelihoodSum and freeze.  The translator is "
+                   "the same through amend (affine and exp forward models, and a real-to-complex model x -> R exp(x) behind complex data: chain rule with J^H), LikelihoodSum and freeze.  The translator is "
                    "validated against the real functions on float inputs (traces_validated_against_impl).",
     "functions_encoded": ["nifty.re.likelihood_impl.{Gaussian,StudentT,Poissonian,VariableCovarianceGaussian,VariableCovarianceStudentT,Categorical}."
                           "{energy,metric,left_sqrt_metric,transformation,normalized_residual}", "nifty.re.likelihood_impl._get_cov_inv_and_std_inv",
